@@ -253,6 +253,17 @@ def g3_uninvalidated(cls):
                 continue        # keyless: only private fields are memos, public ones are lazily defaulted settings
             called = [c.func.attr for c in ast.walk(value) if isinstance(c, ast.Call) and isinstance(c.func, ast.Attribute)
                       and isinstance(c.func.value, ast.Name) and c.func.value.id == 'self']
+            # a private helper that the confirmed reference does not have and that is called from this one site is the memoised
+            # computation moved out of the method: it is read as if it were still written inline
+            from . import alpha as _alpha
+            def _extracted(c):
+                mm = cls.methods.get(c)
+                if mm is None or not _alpha.is_new_function(mm.qual):
+                    return False
+                sites = [x for m2 in cls.methods.values() for x in ast.walk(m2.node) if isinstance(x, ast.Call) and isinstance(x.func, ast.Attribute)
+                         and x.func.attr == c and isinstance(x.func.value, ast.Name) and x.func.value.id == 'self']
+                return len(sites) == 1
+            called = [c for c in called if not _extracted(c)]
             if not called:
                 continue
             needed = set()
